@@ -12,6 +12,7 @@ import Mathlib.Algebra.Order.Field.Rat
 import Mathlib.Data.String.Basic
 import AtsimModel.Props.C03
 import AtsimModel.Lemmas.KernelQ
+import AtsimModel.Lemmas.TokSem
 /-!
 # C19 — GULP, ADP, funcfl and Excel targets carry the same functions on the same grids
 
@@ -251,5 +252,22 @@ theorem C19_code_gulp_writer (pots : List Pot) (cut : Rat) (nr : Nat) (out : Lis
     gulp_write ⟨(nr : Int), cut, pots.map GulpWriter.toRec⟩ out = out ++ (gulpTable pots cut nr).flatMap GulpWriter.renderBlock := by
   simp only [gulp_write, GulpWriter.write_loop_eq, List.append_nil]
 
+
+open Atsim.Gen.Logic Atsim.TokSem in
+/-- **code tie (ADP)**: `ADP_EAMTabulation.write` with `_write_dipole` / `_write_quadrupole` as regenerated writes the model's `adp`: the complete eam/alloy file of
+    the same elements and pair potentials, then the dipole blocks, then the quadrupole blocks - same lower-triangular order, same grid, the function itself
+    (`u(r)`, `w(r)`), not `r` times it -/
+theorem C19_code_adp_write (I : String → Nat → Rat → Rat) (hI : ZeroFn I) (els : List El) (pairs dip quad : List PairDecl)
+    (cut : Rat) (nr : Nat) (cutrho : Rat) (nrho : Nat) (out : List Tok) :
+    streamSem I (adp_tab_write ⟨(nr : Int), cut, (nrho : Int), cutrho, els.map toEam, pairs.map toPot, dip.map toPot, quad.map toPot⟩ out) =
+      streamSem I out ++ setflSem I ["", "", ""] ((nr : Rat) * tabStep cut nr) (setflTab false els pairs cut nr cutrho nrho) ++
+        ((adp els pairs dip quad cut nr cutrho nrho).dipoles.flatten).map (fun s => numLine (pairSlotVal I false s)) ++
+        ((adp els pairs dip quad cut nr cutrho nrho).quadrupoles.flatten).map (fun s => numLine (pairSlotVal I false s)) := by
+  unfold adp_tab_write adp_write_quadrupole adp_write_dipole
+  simp only [Atsim.C03.eamtab_dr_eq, Atsim.C03.eamtab_drho_eq]
+  rw [Atsim.C03.SetflWriter.streamSem_append, Atsim.C03.C03_code_pair_pots I hI, Atsim.C03.C03_code_pair_pots I hI,
+    Atsim.C03.C03_code_write_alloy I hI]
+  simp only [Atsim.C03.SetflWriter.streamSem_nil, List.nil_append, List.append_assoc]
+  rfl
 
 end Atsim.C19
